@@ -101,3 +101,10 @@ Theorem C06_weights_are_only_used_through_the_mask :
   forallb (fun r => snd r) madeT_weight_uses = true /\ forallb (fun r => snd r) madeN_weight_uses = true.
 Proof. split; reflexivity. Qed.
 Print Assumptions C06_weights_are_only_used_through_the_mask.
+
+(* the constructors of both copies hand the degrees from layer to layer as a chain - the data flow the model's [eval_layers]
+   evaluates and the theorems above are about (table regenerated from both sources on every run) *)
+Theorem C06_constructors_wire_degrees_in_a_chain :
+  madeT_degree_wiring = chain_wiring /\ madeN_degree_wiring = chain_wiring.
+Proof. split; reflexivity. Qed.
+Print Assumptions C06_constructors_wire_degrees_in_a_chain.
